@@ -74,29 +74,31 @@ theorem loadCast_of_inClass {c : Int} {v : Val} (h : inClass c v = true) : loadC
   simp [inClass_not_pt2] at h
 
 /-- what one save/load cycle does to the observable value of one attribute -/
-theorem sim_trunc {a : Attr} {v : Val} (h : valOK a v = true) :
-    Val.sim (loadCast (if a.xtype == .point2d then trunc2 v else v)) v := by
+theorem valOK_point2d {a : Attr} {v : Val} (h : valOK a v = true) (hx : a.xtype = .point2d) :
+    ∃ x y z, v = .pt x y z ∧ isZero z = true := by
+  unfold valOK at h
+  simp only [Bool.and_eq_true, hx, bne_self_eq_false, Bool.false_or] at h
+  cases v with
+  | pt x y z => exact ⟨x, y, z, rfl, by simpa using h.2.2⟩
+  | _ => simp at h
+
+theorem valOK_inClass {a : Attr} {v : Val} (h : valOK a v = true) : inClass a.code v = true := by
   unfold valOK at h
   simp only [Bool.and_eq_true] at h
-  obtain ⟨hc, hz⟩ := h
+  exact h.1
+
+theorem sim_trunc {a : Attr} {v : Val} (h : valOK a v = true) :
+    Val.sim (loadCast (if a.xtype == .point2d then trunc2 v else v)) v := by
   by_cases hx : a.xtype = .point2d
-  · simp only [hx, beq_self_eq_true, if_true]
-    cases v with
-    | pt x y z =>
-      simp only [hx] at hz
-      simp only [trunc2, loadCast, Val.sim]
-      refine ⟨bitsSim_refl _, bitsSim_refl _, ?_⟩
-      by_cases h0 : z = 0
-      · exact Or.inl h0.symm
-      · exact Or.inr ⟨by decide, hz⟩
-    | pt2 x y => simp [inClass_not_pt2] at hc
-    | int i => simp [trunc2, loadCast, Val.sim]
-    | dbl b => simp [trunc2, loadCast, Val.sim, bitsSim_refl]
-    | str s => simp [trunc2, loadCast, Val.sim]
-    | bin d => simp [trunc2, loadCast, Val.sim]
+  · obtain ⟨x, y, z, rfl, hz⟩ := valOK_point2d h hx
+    simp only [hx, beq_self_eq_true, if_true, trunc2, loadCast, Val.sim]
+    refine ⟨bitsSim_refl _, bitsSim_refl _, ?_⟩
+    by_cases h0 : z = 0
+    · exact Or.inl h0.symm
+    · exact Or.inr ⟨by decide, hz⟩
   · have : (a.xtype == XType.point2d) = false := by simpa using hx
     simp only [this, Bool.false_eq_true, if_false]
-    rw [loadCast_of_inClass hc]
+    rw [loadCast_of_inClass (valOK_inClass h)]
     exact Val.sim_refl v
 
 /-- `observe` after the cycle agrees (up to the sign of zero) with `observe` before -/
@@ -104,8 +106,8 @@ theorem observe_cycle (ver : Nat) (force : Bool) (a : Attr) (stored : Option Val
     (hver : a.minVer ≤ ver)
     (hst : ∀ v, stored = some v → valOK a v = true)
     (hdef : ∀ d, a.default = some d → valOK a d = true) :
-    simO (match expected ver force a stored with | some v => some v | none => a.default)
-         (match stored with | some v => some v | none => a.default) := by
+    simO (obsOf a (expected ver force a stored)) (obsOf a stored) := by
+  unfold obsOf
   have hnv : ¬ ver < a.minVer := by omega
   cases stored with
   | some v =>
@@ -157,46 +159,26 @@ theorem dblEq_zero_right {c z : Nat} (hz : isZero z = true) : dblEq c z = dblEq 
 /-- `pyEq d ·` does not see what the cycle changes in a value -/
 theorem pyEq_cycle {a : Attr} {v : Val} (d : Val) (h : valOK a v = true) :
     pyEq d (loadCast (if a.xtype == .point2d then trunc2 v else v)) = pyEq d v := by
-  unfold valOK at h
-  simp only [Bool.and_eq_true] at h
-  obtain ⟨hc, hz⟩ := h
   by_cases hx : a.xtype = .point2d
-  · simp only [hx, beq_self_eq_true, if_true]
-    cases v with
-    | pt x y z =>
-      simp only [hx] at hz
-      simp only [trunc2, loadCast]
-      cases d <;> simp [pyEq]
-      rename_i p q r
-      rw [dblEq_zero_right hz]
-    | pt2 x y => simp [inClass_not_pt2] at hc
-    | int i => simp [trunc2, loadCast]
-    | dbl b => simp [trunc2, loadCast]
-    | str s => simp [trunc2, loadCast]
-    | bin d => simp [trunc2, loadCast]
+  · obtain ⟨x, y, z, rfl, hz⟩ := valOK_point2d h hx
+    simp only [hx, beq_self_eq_true, if_true, trunc2, loadCast]
+    cases d <;> simp [pyEq]
+    rename_i p q r
+    rw [dblEq_zero_right hz]
   · have : (a.xtype == XType.point2d) = false := by simpa using hx
     simp only [this, Bool.false_eq_true, if_false]
-    rw [loadCast_of_inClass hc]
+    rw [loadCast_of_inClass (valOK_inClass h)]
 
 theorem trunc_cycle {a : Attr} {v : Val} (h : valOK a v = true) :
     (if a.xtype == .point2d then trunc2 (loadCast (if a.xtype == .point2d then trunc2 v else v))
      else loadCast (if a.xtype == .point2d then trunc2 v else v)) =
     (if a.xtype == .point2d then trunc2 v else v) := by
-  unfold valOK at h
-  simp only [Bool.and_eq_true] at h
-  obtain ⟨hc, _⟩ := h
   by_cases hx : a.xtype = .point2d
-  · simp only [hx, beq_self_eq_true, if_true]
-    cases v with
-    | pt x y z => simp [trunc2, loadCast]
-    | pt2 x y => simp [inClass_not_pt2] at hc
-    | int i => simp [trunc2, loadCast]
-    | dbl b => simp [trunc2, loadCast]
-    | str s => simp [trunc2, loadCast]
-    | bin d => simp [trunc2, loadCast]
+  · obtain ⟨x, y, z, rfl, _⟩ := valOK_point2d h hx
+    simp [hx, trunc2, loadCast]
   · have : (a.xtype == XType.point2d) = false := by simpa using hx
     simp only [this, Bool.false_eq_true, if_false]
-    rw [loadCast_of_inClass hc]
+    rw [loadCast_of_inClass (valOK_inClass h)]
 
 /-- exporting what was reloaded writes the same tag value again -/
 theorem written_cycle (ver : Nat) (force : Bool) (a : Attr) (stored : Option Val)
@@ -659,12 +641,12 @@ theorem simFast_sound (S : Schema) (ver : Nat) (force : Bool) (ns0 : NS) (rv : N
                 have hg' := hg.set_cover x.id (loadCast lt.tag.val) hW
                 have hres := ih (markP Ps (some (x, fl))) (markP Pd (some (x, fl)))
                   ((x.id, loadCast lt.tag.val) :: ns) U (x.id :: C0) C' hws' hrec hP'' hg' hU
-                refine ⟨?_, by simpa [untag] using hres.2⟩
+                simp only [untag] at hres
+                refine ⟨?_, hres.2⟩
                 have hC : coverOf s (some (x, fl)) = [a.name] := by
                   simp [coverOf, hsrc, hstar', hokHere]
                 rw [hC]
-                have : Good S ver force ns0 exp _ (C' ++ x.id :: C0) := by simpa [untag] using hres.1
-                refine this.mono ?_
+                refine hres.1.mono ?_
                 intro n hn
                 rw [hokHere]
                 simp only [List.cons_append, List.nil_append, List.mem_cons, List.mem_append] at hn ⊢
@@ -688,5 +670,518 @@ theorem simFast_sound (S : Schema) (ver : Nat) (force : Bool) (ns0 : NS) (rv : N
                 have hC : coverOf s (some (x, fl)) = [] := by simp [coverOf, hsrc]
                 rw [hC]
                 simpa [untag] using hres
+
+/-! ### `recover_graphic_attributes` does nothing when no unprocessed tag carries one of its codes -/
+
+theorem lookup_none_of_not_mem {α β : Type} [BEq α] [LawfulBEq α] {k : α} :
+    ∀ {l : List (α × β)}, k ∉ l.map (·.1) → List.lookup k l = none := by
+  intro l
+  induction l with
+  | nil => intro _; rfl
+  | cons p rest ih =>
+    intro h
+    obtain ⟨a, b⟩ := p
+    simp only [List.map_cons, List.mem_cons, not_or] at h
+    rw [List.lookup_cons]
+    have : (k == a) = false := by simpa using h.1
+    simp [this, ih h.2]
+
+theorem recoverLoad_noop (tbl : List (Int × Name)) :
+    ∀ (unp : List Tag) (ns : NS) (acc : List Tag),
+      (∀ t ∈ unp, (recCodes tbl).contains t.code = false) →
+      unp.foldl (recoverStep tbl) (ns, acc) = (ns, acc ++ unp) := by
+  intro unp
+  induction unp with
+  | nil => intro ns acc _; simp
+  | cons t rest ih =>
+    intro ns acc h
+    have ht := h t (List.mem_cons_self ..)
+    have hl : List.lookup t.code tbl = none :=
+      lookup_none_of_not_mem (contains_false_iff.mp (by simpa [recCodes] using ht))
+    simp only [List.foldl_cons, recoverStep, hl]
+    rw [ih ns (acc ++ [t]) (fun u hu => h u (List.mem_cons_of_mem _ hu))]
+    simp
+
+/-! ### concrete tags of symbolic tags -/
+
+theorem conc_lab {ver : Nat} {force : Bool} {ns : NS} {rv : Nat → Val} {s : STag} {lt : LTag}
+    (h : conc ver force ns rv s = some lt) : lt.lab = s.lab := by
+  unfold conc at h
+  cases hs : s.src with
+  | marker n => simp only [hs, Option.some.injEq] at h; subst h; rfl
+  | raw => simp only [hs, Option.some.injEq] at h; subst h; rfl
+  | attr a =>
+    simp only [hs] at h
+    cases hwv : written ver force a (ns.get a.name) with
+    | none => simp [hwv] at h
+    | some v => simp only [hwv, Option.map_some, Option.some.injEq] at h; subst h; rfl
+
+theorem concSeg_filter (ver : Nat) (force : Bool) (ns : NS) (rv : Nat → Val) (drop : List Nat) :
+    ∀ ss : List STag,
+      (concSeg ver force ns rv ss).filter (fun t => !drop.contains t.lab) =
+      concSeg ver force ns rv (ss.filter (fun s => !drop.contains s.lab)) := by
+  intro ss
+  induction ss with
+  | nil => rfl
+  | cons s rest ih =>
+    rw [concSeg_cons, List.filter_append, ih]
+    cases hd : drop.contains s.lab with
+    | true =>
+      have hm : s.lab ∈ drop := List.contains_iff_mem.mp hd
+      have hf : (s :: rest).filter (fun s => !drop.contains s.lab) = rest.filter (fun s => !drop.contains s.lab) := by
+        simp [hm]
+      rw [hf]
+      cases hc : conc ver force ns rv s with
+      | none => simp
+      | some lt =>
+        have hl := conc_lab hc
+        simp [hl, hm]
+    | false =>
+      have hm : s.lab ∉ drop := contains_false_iff.mp hd
+      have hf : (s :: rest).filter (fun s => !drop.contains s.lab) =
+          s :: rest.filter (fun s => !drop.contains s.lab) := by
+        simp [hm]
+      rw [hf, concSeg_cons]
+      cases hc : conc ver force ns rv s with
+      | none => simp
+      | some lt =>
+        have hl := conc_lab hc
+        simp [hl, hm]
+
+theorem concSeg_mem_code {S : Schema} {ver : Nat} {force : Bool} {ns : NS} {rv : Nat → Val} :
+    ∀ {ss : List STag}, WS S ss → ∀ lt ∈ concSeg ver force ns rv ss, ∃ s ∈ ss, lt.tag.code = s.code := by
+  intro ss
+  induction ss with
+  | nil => intro _ lt h; simp [concSeg] at h
+  | cons s rest ih =>
+    intro hws lt h
+    rw [concSeg_cons] at h
+    rcases List.mem_append.mp h with h | h
+    · cases hc : conc ver force ns rv s with
+      | none => simp [hc] at h
+      | some l =>
+        simp only [hc, List.mem_singleton] at h
+        subst h
+        exact ⟨s, List.mem_cons_self .., (conc_code (S := S) (hws s (List.mem_cons_self ..)) hc).1⟩
+    · obtain ⟨t, ht, hcode⟩ := ih (fun t ht => hws t (List.mem_cons_of_mem _ ht)) lt h
+      exact ⟨t, List.mem_cons_of_mem _ ht, hcode⟩
+
+theorem skipStart_of_no_start {ts : List Tag} (h : ∀ t ∈ ts, (t.code == 0 || t.code == 100) = false) :
+    skipStart ts = ts := by
+  cases ts with
+  | nil => rfl
+  | cons t rest => simp [skipStart, h t (List.mem_cons_self ..)]
+
+/-- the `start` rule on the written tags is the symbolic `start` rule -/
+theorem skipStart_conc {S : Schema} {ver : Nat} {force : Bool} {ns : NS} {rv : Nat → Val}
+    {ss ss' : List STag} (hws : WS S ss) (h : symStart ss = some ss') :
+    skipStart (untag (concSeg ver force ns rv ss)) = untag (concSeg ver force ns rv ss') := by
+  cases ss with
+  | nil => simp only [symStart, Option.some.injEq] at h; subst h; rfl
+  | cons s rest =>
+    simp only [symStart] at h
+    cases hsrc : s.src with
+    | attr a =>
+      simp only [hsrc] at h
+      split at h
+      · rename_i hall
+        simp only [Option.some.injEq] at h; subst h
+        apply skipStart_of_no_start
+        intro t ht
+        simp only [untag, List.mem_map] at ht
+        obtain ⟨lt, hlt, rfl⟩ := ht
+        obtain ⟨u, hu, hcode⟩ := concSeg_mem_code hws lt hlt
+        rw [hcode]
+        have := (List.all_eq_true.mp hall) u hu
+        simpa using this
+      · exact absurd h (by simp)
+    | marker n =>
+      simp only [hsrc, Option.some.injEq] at h
+      have hc : conc ver force ns rv s = some ⟨s.lab, ⟨100, .str [n]⟩⟩ := by simp [conc, hsrc]
+      have hcode := (hws s (List.mem_cons_self ..)).2 n hsrc
+      rw [concSeg_cons, hc]
+      simp only [List.cons_append, List.nil_append, untag, List.map_cons, skipStart]
+      subst h
+      simp [hcode]
+    | raw =>
+      simp only [hsrc, Option.some.injEq] at h
+      have hc : conc ver force ns rv s = some ⟨s.lab, ⟨s.code, rv s.lab⟩⟩ := by simp [conc, hsrc]
+      rw [concSeg_cons, hc]
+      simp only [List.cons_append, List.nil_append, untag, List.map_cons, skipStart]
+      subst h
+      by_cases hz : (s.code == 0 || s.code == 100) = true
+      · simp [hz]
+      · simp only [hz, Bool.false_eq_true, if_false]
+        rw [concSeg_cons, hc]; rfl
+
+theorem concSegs_length (ver : Nat) (force : Bool) (ns : NS) (rv : Nat → Nat → Val) :
+    ∀ (sss : List (List STag)) (k : Nat), (concSegs ver force ns rv k sss).length = sss.length := by
+  intro sss
+  induction sss with
+  | nil => intro k; rfl
+  | cons ss rest ih => intro k; simp [concSegs, ih]
+
+theorem concSegs_getElem? (ver : Nat) (force : Bool) (ns : NS) (rv : Nat → Nat → Val) :
+    ∀ (sss : List (List STag)) (k i : Nat),
+      (concSegs ver force ns rv k sss)[i]? = (sss[i]?).map (fun ss => concSeg ver force ns (rv (k + i)) ss) := by
+  intro sss
+  induction sss with
+  | nil => intro k i; simp [concSegs]
+  | cons ss rest ih =>
+    intro k i
+    cases i with
+    | zero => simp [concSegs]
+    | succ j =>
+      simp only [concSegs, List.getElem?_cons_succ]
+      rw [ih (k + 1) j]
+      have : k + 1 + j = k + (j + 1) := by omega
+      rw [this]
+
+/-! ### the relation "written tags of symbolic tags" with payload values chosen per tag -/
+
+inductive ConcRel (ver : Nat) (force : Bool) (ns : NS) : List STag → List LTag → Prop
+  | nil : ConcRel ver force ns [] []
+  | some {s : STag} {ss : List STag} {lt : LTag} {lts : List LTag} (rv : Nat → Val) :
+      conc ver force ns rv s = some lt → ConcRel ver force ns ss lts → ConcRel ver force ns (s :: ss) (lt :: lts)
+  | none {s : STag} {ss : List STag} {lts : List LTag} (rv : Nat → Val) :
+      conc ver force ns rv s = none → ConcRel ver force ns ss lts → ConcRel ver force ns (s :: ss) lts
+
+theorem concSeg_rel (ver : Nat) (force : Bool) (ns : NS) (rv : Nat → Val) :
+    ∀ ss : List STag, ConcRel ver force ns ss (concSeg ver force ns rv ss) := by
+  intro ss
+  induction ss with
+  | nil => exact .nil
+  | cons s rest ih =>
+    rw [concSeg_cons]
+    cases hc : conc ver force ns rv s with
+    | none => exact .none rv hc ih
+    | some lt => exact .some rv hc ih
+
+theorem ConcRel.append {ver : Nat} {force : Bool} {ns : NS} {a b : List STag} {x y : List LTag}
+    (h1 : ConcRel ver force ns a x) (h2 : ConcRel ver force ns b y) : ConcRel ver force ns (a ++ b) (x ++ y) := by
+  induction h1 with
+  | nil => exact h2
+  | some rv hc _ ih => exact .some rv hc ih
+  | none rv hc _ ih => exact .none rv hc ih
+
+theorem concSegs_rel (ver : Nat) (force : Bool) (ns : NS) (rv : Nat → Nat → Val) :
+    ∀ (sss : List (List STag)) (k : Nat),
+      ConcRel ver force ns sss.flatten (concSegs ver force ns rv k sss).flatten := by
+  intro sss
+  induction sss with
+  | nil => intro k; exact .nil
+  | cons ss rest ih =>
+    intro k
+    simp only [concSegs, List.flatten_cons]
+    exact (concSeg_rel ver force ns (rv k) ss).append (ih (k + 1))
+
+/-! ### soundness of the symbolic run of `simple_dxfattribs_loader` -/
+
+theorem simSimple_sound (S : Schema) (ver : Nat) (force : Bool) (ns0 : NS) (m : Mapping) (exp : List Name) :
+    ∀ (ss : List STag) (lts : List LTag), ConcRel ver force ns0 ss lts →
+      ∀ (ns : NS) (C0 C : List Name), WS S ss → simSimple m ver exp ss = some C →
+        Good S ver force ns0 exp ns C0 →
+        Good S ver force ns0 exp ((untag lts).foldl (simpleStep m) ns) (C ++ C0) := by
+  intro ss lts hrel
+  induction hrel with
+  | nil =>
+    intro ns C0 C _ hsim hg
+    simp only [simSimple, Option.some.injEq] at hsim
+    subst hsim
+    simpa [untag] using hg
+  | @some s rest lt lts' rv hc _ ih =>
+    intro ns C0 C hws hsim hg
+    have hws' : WS S rest := fun t ht => hws t (List.mem_cons_of_mem _ ht)
+    have hs := hws s (List.mem_cons_self ..)
+    have hcode : lt.tag.code = s.code := (conc_code (S := S) hs hc).1
+    simp only [simSimple] at hsim
+    cases hrec : simSimple m ver exp rest with
+    | none => simp [hrec] at hsim
+    | some C' =>
+      simp only [hrec] at hsim
+      have hnw : neverWritten ver s = false := by
+        cases hb : neverWritten ver s with
+        | false => rfl
+        | true => rw [conc_none_of_neverWritten hb] at hc; exact absurd hc (by simp)
+      simp only [hnw, Bool.false_eq_true, if_false] at hsim
+      simp only [untag, List.map_cons, List.foldl_cons]
+      -- one real step, then the induction hypothesis on the new namespace
+      cases hl : List.lookup s.code m with
+      | none =>
+        simp only [hl, Option.some.injEq] at hsim; subst hsim
+        have hstep : simpleStep m ns lt.tag = ns := by simp [simpleStep, hcode, hl]
+        rw [hstep]
+        exact ih ns C0 C' hws' hrec hg
+      | some e =>
+        cases e with
+        | many xs =>
+          simp only [hl, Option.some.injEq] at hsim; subst hsim
+          have hstep : simpleStep m ns lt.tag = ns := by simp [simpleStep, hcode, hl]
+          rw [hstep]
+          exact ih ns C0 C' hws' hrec hg
+        | one x =>
+          simp only [hl] at hsim
+          by_cases hstar : x.star = true
+          · simp only [hstar, if_true, Option.some.injEq] at hsim; subst hsim
+            have hstep : simpleStep m ns lt.tag = ns := by simp [simpleStep, hcode, hl, hstar]
+            rw [hstep]
+            exact ih ns C0 C' hws' hrec hg
+          · have hstar' : x.star = false := by simpa using hstar
+            simp only [hstar', Bool.false_eq_true, if_false] at hsim
+            have hstep : simpleStep m ns lt.tag = (x.id, loadCast lt.tag.val) :: ns := by
+              simp [simpleStep, hcode, hl, hstar']
+            rw [hstep]
+            cases hsrc : s.src with
+            | attr a =>
+              simp only [hsrc] at hsim
+              split at hsim
+              rotate_left
+              · exact absurd hsim (by simp)
+              rename_i hxa
+              simp only [beq_iff_eq] at hxa
+              simp only [Option.some.injEq] at hsim; subst hsim
+              have hfa := (hs.1 a hsrc).1
+              have hval : ∃ v, written ver force a (ns0.get a.name) = some v ∧ lt.tag.val = v := by
+                simp only [conc, hsrc] at hc
+                cases hwv : written ver force a (ns0.get a.name) with
+                | none => simp [hwv] at hc
+                | some v => simp only [hwv, Option.map_some, Option.some.injEq] at hc; subst hc; exact ⟨v, rfl, rfl⟩
+              obtain ⟨v, hwv, hv⟩ := hval
+              have hW : Wn S ver force ns0 x.id = some (loadCast lt.tag.val) := by
+                rw [hxa]; simp [Wn, hfa, expected, hwv, hv]
+              have hg' := hg.set_cover x.id (loadCast lt.tag.val) hW
+              have hres := ih ((x.id, loadCast lt.tag.val) :: ns) (x.id :: C0) C' hws' hrec hg'
+              refine hres.mono ?_
+              intro n hn
+              rw [hxa]
+              simp only [List.cons_append, List.mem_cons, List.mem_append] at hn ⊢
+              rcases hn with h | h | h
+              · exact Or.inr (Or.inl h)
+              · exact Or.inl h
+              · exact Or.inr (Or.inr h)
+            | marker n =>
+              simp only [hsrc] at hsim
+              split at hsim
+              · exact absurd hsim (by simp)
+              rename_i hne
+              simp only [Option.some.injEq] at hsim; subst hsim
+              have hg' := hg.set x.id (loadCast lt.tag.val)
+                (Or.inl (contains_false_iff.mp (by simpa using hne)))
+              exact ih _ C0 C' hws' hrec hg'
+            | raw =>
+              simp only [hsrc] at hsim
+              split at hsim
+              · exact absurd hsim (by simp)
+              rename_i hne
+              simp only [Option.some.injEq] at hsim; subst hsim
+              have hg' := hg.set x.id (loadCast lt.tag.val)
+                (Or.inl (contains_false_iff.mp (by simpa using hne)))
+              exact ih _ C0 C' hws' hrec hg'
+  | @none s rest lts' rv hc _ ih =>
+    intro ns C0 C hws hsim hg
+    have hws' : WS S rest := fun t ht => hws t (List.mem_cons_of_mem _ ht)
+    have hs := hws s (List.mem_cons_self ..)
+    simp only [simSimple] at hsim
+    cases hrec : simSimple m ver exp rest with
+    | none => simp [hrec] at hsim
+    | some C' =>
+      simp only [hrec] at hsim
+      have hres := ih ns C0 C' hws' hrec hg
+      -- nothing was written: the source is an attribute without a tag
+      cases hsrc : s.src with
+      | marker n => simp [conc, hsrc] at hc
+      | raw => simp [conc, hsrc] at hc
+      | attr a =>
+        have hfa := (hs.1 a hsrc).1
+        have hwn : written ver force a (ns0.get a.name) = none := by simpa [conc, hsrc] using hc
+        have hW : Wn S ver force ns0 a.name = none := by simp [Wn, hfa, expected, hwn]
+        have hsub : ∀ n, n ∈ C ++ C0 → n ∈ a.name :: (C' ++ C0) := by
+          intro n hn
+          split at hsim
+          · simp only [Option.some.injEq] at hsim; subst hsim; exact List.mem_cons_of_mem _ hn
+          · split at hsim
+            · rename_i x _
+              split at hsim
+              · simp only [Option.some.injEq] at hsim; subst hsim; exact List.mem_cons_of_mem _ hn
+              · simp only [hsrc] at hsim
+                split at hsim
+                · simp only [Option.some.injEq] at hsim; subst hsim; simpa using hn
+                · exact absurd hsim (by simp)
+            · simp only [Option.some.injEq] at hsim; subst hsim; exact List.mem_cons_of_mem _ hn
+        exact (hres.cover_none a.name hW).mono hsub
+
+/-! ### one loader call, all loader calls -/
+
+theorem fastLoad_nil (m : Mapping) (ns : NS) : fastLoad m [] ns = (ns, []) := rfl
+
+theorem recoverLoad_nil (tbl : List (Int × Name)) (ns : NS) : recoverLoad tbl [] ns = (ns, []) := rfl
+
+/-- the early return of `loadStep` on an empty tag list is the general formula -/
+theorem loadStep_fast_eq (tbl : List (Int × Name)) (m : Mapping) (tags : List Tag) (ns : NS) (b : Bool) :
+    (if tags.isEmpty = true then ns
+     else if b = true then (recoverLoad tbl (fastLoad m tags ns).2 (fastLoad m tags ns).1).1 else (fastLoad m tags ns).1) =
+    (if b = true then (recoverLoad tbl (fastLoad m tags ns).2 (fastLoad m tags ns).1).1 else (fastLoad m tags ns).1) := by
+  cases tags with
+  | nil => cases b <;> simp [fastLoad_nil, recoverLoad_nil]
+  | cons t rest => simp
+
+theorem simStep_sound (tbl : List (Int × Name)) (S : Schema) (ver : Nat) (force : Bool) (ns0 : NS)
+    (rv : Nat → Nat → Val) (exp : List Name) (sss : List (List STag)) (hws : ∀ ss ∈ sss, WS S ss)
+    (st : LoadStep) (ns : NS) (C0 C : List Name)
+    (hsim : simStep tbl ver exp sss st = some C)
+    (hg : Good S ver force ns0 exp ns C0) :
+    Good S ver force ns0 exp (loadStep tbl ver (concSegs ver force ns0 rv 0 sss) ns st) (C ++ C0) := by
+  cases st with
+  | simple m =>
+    simp only [simStep] at hsim
+    simp only [loadStep]
+    have hwsf : WS S sss.flatten := by
+      intro s hs
+      obtain ⟨ss, hss, hs'⟩ := List.mem_flatten.mp hs
+      exact hws ss hss s hs'
+    exact simSimple_sound S ver force ns0 m exp _ _ (concSegs_rel ver force ns0 rv sss 0) ns C0 C hwsf hsim hg
+  | fast m sub recover drop =>
+    simp only [simStep] at hsim
+    simp only [loadStep, concSegs_length]
+    generalize hr12 : (ver == 1009 || sss.length == 1) = r12 at hsim ⊢
+    -- the selected subclass, symbolic and concrete
+    have hsel : (if r12 = true then (concSegs ver force ns0 rv 0 sss)[0]? else (concSegs ver force ns0 rv 0 sss)[sub]?) =
+        ((if r12 = true then sss[0]? else sss[sub]?)).map
+          (fun ss => concSeg ver force ns0 (rv (if r12 = true then 0 else sub)) ss) := by
+      cases r12 <;> simp [concSegs_getElem?]
+    rw [hsel]
+    cases hss : (if r12 = true then sss[0]? else sss[sub]?) with
+    | none =>
+      simp only [hss, Option.some.injEq] at hsim; subst hsim
+      simpa using hg
+    | some ss =>
+      simp only [hss] at hsim
+      simp only [Option.map_some]
+      have hssmem : ss ∈ sss := by
+        cases r12
+        · simp only [Bool.false_eq_true, if_false] at hss; exact List.mem_of_getElem? hss
+        · simp only [if_true] at hss; exact List.mem_of_getElem? hss
+      have hwss : WS S ss := hws ss hssmem
+      split at hsim
+      rotate_left
+      · exact absurd hsim (by simp)
+      -- the tags handed to the loop
+      generalize hss' : (if r12 = true then ss else ss.filter (fun s => !drop.contains s.lab)) = ss' at hsim
+      have hwss' : WS S ss' := by
+        subst hss'
+        cases r12
+        · simp only [Bool.false_eq_true, if_false]
+          exact fun s hs => hwss s (List.mem_filter.mp hs).1
+        · simpa using hwss
+      have htags : untag (if r12 = true then concSeg ver force ns0 (rv (if r12 = true then 0 else sub)) ss
+            else (concSeg ver force ns0 (rv (if r12 = true then 0 else sub)) ss).filter (fun t => !drop.contains t.lab)) =
+          untag (concSeg ver force ns0 (rv (if r12 = true then 0 else sub)) ss') := by
+        subst hss'
+        cases r12
+        · simp only [Bool.false_eq_true, if_false]; rw [concSeg_filter]
+        · simp
+      rw [htags, loadStep_fast_eq]
+      cases hst : symStart ss' with
+      | none => simp [hst] at hsim
+      | some ss'' =>
+        simp only [hst] at hsim
+        have hwss'' : WS S ss'' := by
+          intro s hs
+          cases ss' with
+          | nil => simp only [symStart, Option.some.injEq] at hst; subst hst; simp at hs
+          | cons s0 rest =>
+            simp only [symStart] at hst
+            split at hst
+            · split at hst
+              · simp only [Option.some.injEq] at hst; subst hst; exact hwss' s hs
+              · exact absurd hst (by simp)
+            · simp only [Option.some.injEq] at hst; subst hst
+              split at hs
+              · exact hwss' s (List.mem_cons_of_mem _ hs)
+              · exact hwss' s hs
+        have hskip := skipStart_conc (ver := ver) (force := force) (ns := ns0)
+          (rv := rv (if r12 = true then 0 else sub)) hwss' hst
+        have hsound := simFast_sound S ver force ns0 (rv (if r12 = true then 0 else sub)) m exp
+          (if (recover && !r12) = true then recCodes tbl else []) ss'' [] [] ns [] C0 C hwss'' hsim
+          (fun _ _ _ _ => Iff.rfl) hg (by simp)
+        unfold fastLoad
+        simp only [hskip]
+        cases hrec : (recover && !r12) with
+        | false => simpa [hrec] using hsound.1
+        | true =>
+          simp only [hrec, if_true] at hsound ⊢
+          have hnoop := recoverLoad_noop tbl _ ((untag (concSeg ver force ns0 (rv (if r12 = true then 0 else sub)) ss'')).foldl
+            (fastStep m) ⟨ns, [], []⟩).ns [] hsound.2
+          unfold recoverLoad
+          rw [hnoop]
+          exact hsound.1
+
+theorem simSteps_sound (tbl : List (Int × Name)) (S : Schema) (ver : Nat) (force : Bool) (ns0 : NS)
+    (rv : Nat → Nat → Val) (exp : List Name) (sss : List (List STag)) (hws : ∀ ss ∈ sss, WS S ss) :
+    ∀ (loads : List LoadStep) (ns : NS) (C0 C : List Name),
+      simSteps tbl ver exp sss loads = some C →
+      Good S ver force ns0 exp ns C0 →
+      Good S ver force ns0 exp (loads.foldl (loadStep tbl ver (concSegs ver force ns0 rv 0 sss)) ns) (C ++ C0) := by
+  intro loads
+  induction loads with
+  | nil =>
+    intro ns C0 C h hg
+    simp only [simSteps, Option.some.injEq] at h; subst h
+    simpa using hg
+  | cons st rest ih =>
+    intro ns C0 C h hg
+    simp only [simSteps] at h
+    cases h1 : simStep tbl ver exp sss st with
+    | none => simp [h1] at h
+    | some A =>
+      cases h2 : simSteps tbl ver exp sss rest with
+      | none => simp [h1, h2] at h
+      | some B =>
+        simp only [h1, h2, Option.some.injEq] at h; subst h
+        have g1 := simStep_sound tbl S ver force ns0 rv exp sss hws st ns C0 A h1 hg
+        have g2 := ih _ (A ++ C0) B h2 g1
+        simp only [List.foldl_cons]
+        refine g2.mono ?_
+        intro n hn
+        simp only [List.mem_append] at hn ⊢
+        rcases hn with (h | h) | h
+        · exact Or.inr (Or.inl h)
+        · exact Or.inl h
+        · exact Or.inr (Or.inr h)
+
+/-- what `wfPlan` says -/
+theorem wfPlan_unfold {tbl : List (Int × Name)} {S : Schema} {p : Plan} (h : wfPlan tbl S p = true) :
+    ∃ sss C, symSegs S p.segs = some sss ∧ simSteps tbl p.ver (expNames S p) sss p.loads = some C ∧
+      (∀ n ∈ expNames S p, n ∈ C) ∧ namesOK S (planNames p) = true ∧ rawsOK p = true ∧ shapeOK p = true := by
+  unfold wfPlan at h
+  cases h1 : symSegs S p.segs with
+  | none => simp [h1] at h
+  | some sss =>
+    simp only [h1, Bool.and_eq_true] at h
+    obtain ⟨⟨⟨hn, hr⟩, hsh⟩, hc⟩ := h
+    cases h2 : simSteps tbl p.ver (expNames S p) sss p.loads with
+    | none => simp [h2] at hc
+    | some C =>
+      simp only [h2, List.all_eq_true] at hc
+      exact ⟨sss, C, rfl, h2, fun n hn' => List.contains_iff_mem.mp (hc n hn'), hn, hr, hsh⟩
+
+/-- the key fact: after reload the namespace holds, for every exported name, exactly the written value -/
+theorem loadEntity_get (tbl : List (Int × Name)) (S : Schema) (p : Plan) (hwf : wfPlan tbl S p = true)
+    (force : Bool) (ns0 : NS) (rv : Nat → Nat → Val) (subs : List (List LTag))
+    (hexp : exportEntity S p force ns0 rv = some subs) (n : Name) (hn : n ∈ expNames S p) :
+    (loadEntity tbl p subs).get n = Wn S p.ver force ns0 n := by
+  obtain ⟨sss, C, h1, h2, hcov, _, _, _⟩ := wfPlan_unfold hwf
+  simp only [exportEntity, h1, Option.map_some, Option.some.injEq] at hexp
+  subst hexp
+  have hws := symSegs_WS h1
+  have g0 : Good S p.ver force ns0 (expNames S p) [] [] :=
+    ⟨fun _ _ => Or.inl rfl, fun _ h => by simp at h⟩
+  have g := simSteps_sound tbl S p.ver force ns0 rv (expNames S p) sss hws p.loads [] [] C h2 g0
+  unfold loadEntity
+  by_cases hW : Wn S p.ver force ns0 n = none
+  · rcases g.1 n hn with h | h
+    · rw [h, hW]
+    · exact h
+  · exact g.2 n (by simpa using hcov n hn) hn hW
 
 end EzdxfVerif.Schema
